@@ -954,9 +954,7 @@ class Frame:
         val = e.get("val")
         if val is None:
             return Sym("const:%s" % e["const"], e["ty"])
-        if val["t"] == "char":
-            return Char(val["v"])
-        return val["v"]
+        return const_value(val, e)
 
     def e_VarRef(self, e):
         return self.place(e["_ix"]).get()
@@ -1188,6 +1186,20 @@ class Frame:
 
     def e_StaticRef(self, e):
         return Sym("static:%s" % e["static"], e["ty"])
+
+
+def const_value(val, e=None):
+    """Evaluator value of a constant evaluated by the driver."""
+    if val is None:
+        return Sym("const:%s" % (e["const"] if e else "?"), e["ty"] if e else None)
+    t = val["t"]
+    if t == "char":
+        return Char(val["v"])
+    if t == "adt":
+        return Adt(val["adt"], val["variant"], {f["name"]: const_value(f["val"], e) for f in val["fields"]})
+    if t == "tuple":
+        return Tup([const_value(f, e) for f in val["fields"]])
+    return val["v"]
 
 
 def _cv(c):
